@@ -13,3 +13,59 @@ func VerifNewAllower(p AuthEventProvider, q spec.UserIDForSender, roomID spec.Ro
 }
 func (v *VerifAllower) Update(p AuthEventProvider) { v.a.update(p) }
 func (v *VerifAllower) Allowed(e PDU) error       { return v.a.allowed(e) }
+
+// VerifPowerOrder runs the resolver's reverse topological power ordering on a list of events.
+func VerifPowerOrder(events, authEvents []PDU) []PDU {
+	r := stateResolverV2{
+		authEventMap:       eventMapFromEvents(authEvents),
+		powerLevelContents: make(map[string]*PowerLevelContent),
+		resolvedCreate:     getCreateEvent(authEvents),
+	}
+	return r.reverseTopologicalOrdering(events, TopologicalOrderByAuthEvents)
+}
+
+// VerifControlList reproduces (for diagnosis only) how ResolveStateConflictsV2New assembles the list of
+// control events it hands to the power ordering, duplicates included.
+func VerifControlList(stateResAlgo StateResAlgorithm, stateSets [][]PDU, authEvents []PDU) (control, others []PDU) {
+	conflicted, unconflicted := splitConflictedUnconflicted(stateResAlgo, stateSets)
+	r := stateResolverV2{authEventMap: eventMapFromEvents(authEvents), conflictedEventMap: eventMapFromEvents(conflicted)}
+	unconflictedSet := newPDUSet(unconflicted)
+	fullConflictedSet := append(conflicted, r.calculateAuthDifferenceNew(stateResAlgo, newPDUSet(conflicted), stateSets)...)
+	visited := map[string]struct{}{}
+	var fullControlSet func(event PDU) []PDU
+	fullControlSet = func(event PDU) []PDU {
+		events := []PDU{event}
+		for _, authEventID := range event.AuthEventIDs() {
+			if _, ok := visited[authEventID]; ok {
+				continue
+			}
+			if event, ok := r.conflictedEventMap[authEventID]; ok {
+				events = append(events, fullControlSet(event)...)
+			}
+			visited[authEventID] = struct{}{}
+		}
+		return events
+	}
+	pulled := map[string]struct{}{}
+	for _, p := range fullConflictedSet {
+		if unconflictedSet.Contains(p) {
+			continue
+		}
+		if isControlEvent(p) {
+			rel := fullControlSet(p)
+			for _, e := range rel {
+				pulled[e.EventID()] = struct{}{}
+			}
+			control = append(control, rel...)
+		}
+	}
+	for _, p := range fullConflictedSet {
+		if unconflictedSet.Contains(p) || isControlEvent(p) {
+			continue
+		}
+		if _, ok := pulled[p.EventID()]; !ok {
+			others = append(others, p)
+		}
+	}
+	return
+}
